@@ -100,7 +100,7 @@ def make_meta_text(fixture_key, nap, ns, shank_of=None, size_fields="complete",
     return "\n".join(out) + "\n"
 
 
-def make_data(data_seed, ns, nap, saturate=None, amp=600, maxint=8192, smooth=False):
+def make_data(data_seed, ns, nap, saturate=None, amp=600, maxint=8192, smooth=False, extremes=False):
     """
     Seeded int16 content with structure: per-channel offsets, correlated noise, and a sync word
     that is a ramp with period 65536 so each frame is attributable.
@@ -127,6 +127,16 @@ def make_data(data_seed, ns, nap, saturate=None, amp=600, maxint=8192, smooth=Fa
             chs = g.permutation(nap)[:nch]
             sign = 1 if g.integers(0, 2) else -1
             d[a:b, chs] = sign * (maxint - 1)
+    if extremes:
+        # the corners of the sample type and runs of exact zeros: lossless paths must carry them too
+        ge = np.random.Generator(np.random.PCG64(data_seed ^ 0xE0E0))
+        n = max(4, ns // 200)
+        rr, cc = ge.integers(0, ns, size=n), ge.integers(0, nap, size=n)
+        d[rr, cc] = ge.choice(np.array([-32768, 32767, -32767, 0, 1, -1], dtype=np.int16), size=n)
+        a0 = int(ge.integers(0, max(1, ns - 20)))
+        d[a0:a0 + 16, :] = 0
+        d[0, :] = np.where(np.arange(nap) % 2 == 0, -32768, 32767)
+        d[-1, :] = np.where(np.arange(nap) % 2 == 0, 32767, -32768)
     sync = ((np.arange(ns, dtype=np.int64) * 7 + 3) % 65536).astype(np.uint16).view(np.int16)
     out = np.empty((ns, nc), dtype=np.int16)
     out[:, :nap] = d
